@@ -1624,6 +1624,13 @@ theorem poll_only_after_all_bytes_recover (fx : Fixes) (env : Env) (st : St) :
     ({ st with recErrs := 0 }, []) ⟨rfl, by simp⟩
   exact this.2
 
+/-- With the repair the tracker returns once its input is closed, whatever is left incomplete
+    (as found it does not: `trackStuck Fixes.original [t] = true`). -/
+theorem tracker_returns (left : List TFile) : trackStuck Fixes.repaired left = false := by
+  simp [trackStuck, Fixes.repaired]
+
+example : trackStuck Fixes.original [⟨"a", "h", 10, 4⟩] = true := by decide
+
 example : (trackRun [] [[⟨"a", "h", 10, 4⟩, ⟨"b", "g", 3, 3⟩], [⟨"a", "h", 10, 6⟩]]).2.1 =
     [⟨"b", "g", 3, 3⟩, ⟨"a", "h", 10, 10⟩] := by decide
 
